@@ -320,7 +320,7 @@ func vfArbPushPullParts(names []string, withEvents bool) ([]byte, *messagePushPu
 func vfEventABA() {
 	n := 2
 	if vfTier() == 1 {
-		n = 3
+		n = 4 // a power of two like the default 512: time%3 (64-bit bvurem by 3) in every query is beyond the solvers here
 	}
 	s := vfNewSerf("self", n)
 	vfArbEventBuffer(s, n)
